@@ -115,7 +115,7 @@ func c10VerifyTime(r *core.Run) {
 			a := &c10bArtifact{ID: i, Verdicts: map[string]string{}}
 			a.Case = genSignCase(t, fmt.Sprintf("%dv%d", r.No, i), []string{"cat", "ps", "pe-coff", "msi", "appmanifest", "vsix", "mach-o", "jar"})
 			a.Key = core.Pick(t, "short-key", "short-rsa", "short-ec")
-			a.TSAKind = core.Pick(t, "tsa-kind", "valid", "none", "before-lifetime", "after-lifetime", "noeku", "valid", "graft", "substituted", "substituted-wrapped")
+			a.TSAKind = core.Pick(t, "tsa-kind", "valid", "none", "before-lifetime", "after-lifetime", "noeku", "valid", "graft", "substituted", "substituted-wrapped", "authority-expires")
 			if (a.TSAKind == "graft" || strings.HasPrefix(a.TSAKind, "substituted")) && a.Case.Mod != "cat" {
 				a.Case = genSignCase(t, fmt.Sprintf("%dv%dg", r.No, i), []string{"cat"})
 			}
@@ -133,6 +133,10 @@ func c10VerifyTime(r *core.Run) {
 				nextOutcome.Skew = 45 * 24 * time.Hour
 			case "noeku":
 				nextOutcome.Kind = "noeku"
+			case "authority-expires":
+				// the authority's own certificate is valid at the attested time and
+				// has expired, like the signer's, by the time of the late verification
+				nextOutcome.Kind = "short-lived"
 			}
 			a.GenTime = time.Now().Add(nextOutcome.Skew)
 			up, err := a.Case.upload()
@@ -260,8 +264,8 @@ func c10VerifyTime(r *core.Run) {
 			accept := got == ""
 			var want bool
 			switch a.TSAKind {
-			case "valid":
-				want = true // attested inside the lifetime: good for ever
+			case "valid", "authority-expires":
+				want = true // attested inside the lifetime (the authority's, too): good for ever
 			case "none":
 				want = phase == "early" // judged at verification time
 			case "before-lifetime", "after-lifetime", "noeku", "graft", "substituted", "substituted-wrapped":
